@@ -305,4 +305,51 @@ def machine : Machine := { σ := St, name := "oc", init := init, step := step }
 
 end C05
 
-def main (args : List String) : IO UInt32 := runMachines [C05.machine] args
+/-
+  Machine `ocs`: a metainfo request through the real server on a tree a crash can leave.
+    one meta blob=<xhex> pl=<n> tree=<listing> name=<hex digest> mi=<xhex> => first=<200|202> final=valid dl=ok
+-/
+namespace C05Srv
+
+def step (_ : Unit) (kind : String) (args impl : List String) : Option (Unit × StepOut) :=
+  match kind, args with
+  | "one", "meta" :: rest => do
+    let blob ← bytes? ((kv? rest "blob").getD "x")
+    let mi ← bytes? ((kv? rest "mi").getD "x")
+    let name := (kv? rest "name").getD ""
+    let tab : C05.Tab := { blobs := [blob], names := [name], mis := [mi] }
+    let cfg := C05.mkCfg tab 0 false
+    let fs ← C05.tree? (list? ((kv? rest "tree").getD "-"))
+    let (m0, fs0, _) := C05.run cfg {} fs .restart
+    -- getMetaInfo: a sidecar that decodes is served, anything else starts the refresh (202)
+    let (m1, fs1, r1) := C05.run cfg m0 fs0 (.getmeta name)
+    let first := match r1 with
+      | .found t => if t = mi then "200" else "200-wrong"
+      | _ => "202"
+    let (m2, fs2, _) := if first = "202" then C05.run cfg m1 fs1 (.refresh name blob) else (m1, fs1, Res.ok)
+    let (m3, fs3, r3) := C05.run cfg m2 fs2 (.getmeta name)
+    let final := match r3 with
+      | .found t => if t = mi then "valid" else "wrong"
+      | _ => "absent"
+    let (_, _, r4) := C05.run cfg m3 fs3 (.read name)
+    let dl := match r4 with
+      | .bytes b => if b = blob then "ok" else "wrong"
+      | _ => "notfound"
+    let iFirst := (kv? impl "first").getD "-"
+    let iFinal := (kv? impl "final").getD "-"
+    let iDl := (kv? impl "dl").getD "-"
+    let pf (key detail : String) := s!"side=impl key={key} {detail}"
+    let pfs :=
+      (if iFirst ≠ "200" ∧ iFirst ≠ "202" then [pf s!"metainfo-request-error.code{iFirst}" s!"the first metainfo request is answered {impl}"] else []) ++
+      (if iFirst = "200" ∨ iFirst = "202" then
+        (if iFinal ≠ "valid" then [pf s!"metainfo-never-served.{iFinal}" s!"polling the metainfo request ends with {iFinal}"] else []) ++
+        (if iFinal = "valid" ∧ iDl ≠ "ok" then [pf s!"blob-not-served.{iDl}" "the metainfo is served, the blob is not"] else [])
+       else [])
+    pure ((), { obs := [s!"first={first}", s!"final={final}", s!"dl={dl}"], branch := s!"meta.{first}", propfails := pfs })
+  | _, _ => none
+
+def machine : Machine := { σ := Unit, name := "ocs", init := fun _ => some (), step := step }
+
+end C05Srv
+
+def main (args : List String) : IO UInt32 := runMachines [C05.machine, C05Srv.machine] args
